@@ -60,6 +60,13 @@ type c17Inst struct {
 func (in *c17Inst) SetReplay(b bool) { in.replay = b }
 
 func c17Keys(p c17Params) []any {
+	if p.Seed == "multi" {
+		// keys before, inside (between two filler keys) and after the 700 filler keys that span several nodes
+		if p.KeyT == "int" {
+			return []any{int32(math.MinInt32 + 1), int32(101), int32(1150), int32(2198), int32(math.MaxInt32 - 1)}
+		}
+		return []any{float32(-3.0e38), float32(100.125), float32(187.625), float32(275), float32(3.0e38)}
+	}
 	switch p.KeyT {
 	case "int":
 		if p.Kind == "uniq" {
@@ -126,7 +133,7 @@ func newC17(p c17Params) *c17Inst {
 	case "hash":
 		in.idx = index.NewLinearProbeHashTableIndex(im, in.bpm, 0, 10, types.PageID(-1))
 	}
-	if p.Seed == "filled" {
+	if p.Seed == "filled" || p.Seed == "multi" {
 		// filler keys around the domain so that nodes are (nearly) full / several nodes exist
 		n := 0
 		for _, f := range c17Filler(p) {
@@ -140,13 +147,17 @@ func newC17(p c17Params) *c17Inst {
 
 func c17Filler(p c17Params) []any {
 	var out []any
+	nNum := 150
+	if p.Seed == "multi" {
+		nNum = 700 // a node holds ~300 fixed-size entries: three or more nodes
+	}
 	switch p.KeyT {
 	case "int":
-		for i := 0; i < 150; i++ {
+		for i := 0; i < nNum; i++ {
 			out = append(out, int32(100+i*3))
 		}
 	case "float":
-		for i := 0; i < 150; i++ {
+		for i := 0; i < nNum; i++ {
 			out = append(out, float32(100)+float32(i)*0.25)
 		}
 	default:
@@ -326,9 +337,10 @@ func (in *c17Inst) check(bad func(string, string) *core.Violation) *core.Violati
 		return strings.Join(s, " ")
 	}
 	probe := append([]any{}, in.keys...)
-	if in.p.Seed == "filled" {
-		f := c17Filler(in.p)
-		probe = append(probe, f[0], f[len(f)/2], f[len(f)-1])
+	var filler []any
+	if in.p.Seed != "empty" {
+		filler = c17Filler(in.p)
+		probe = append(probe, filler[0], filler[len(filler)/2], filler[len(filler)-1])
 	}
 	for _, k := range probe {
 		var want []page.RID
@@ -346,8 +358,34 @@ func (in *c17Inst) check(bad func(string, string) *core.Violation) *core.Violati
 		return nil
 	}
 	bounds := append([]any{nil}, in.keys...)
+	if len(filler) <= 8 {
+		bounds = append(bounds, filler...) // wide keys: a filler key may be the first/last entry of a node
+	}
+	var pairs [][2]any
 	for _, lo := range bounds {
 		for _, hi := range bounds {
+			pairs = append(pairs, [2]any{lo, hi})
+		}
+	}
+	if in.p.Seed == "multi" {
+		// every filler key as inclusive bound of short ranges (whichever keys sit on node boundaries are among
+		// them), every 50th as bound of the long ranges
+		for i, f := range filler {
+			pairs = append(pairs, [2]any{f, f})
+			if i > 0 {
+				pairs = append(pairs, [2]any{filler[i-1], f})
+			}
+			if i > 0 && i+1 < len(filler) {
+				pairs = append(pairs, [2]any{filler[i-1], filler[i+1]})
+			}
+			if i%50 == 0 {
+				pairs = append(pairs, [2]any{nil, f}, [2]any{f, nil})
+			}
+		}
+	}
+	for _, pr := range pairs {
+		{
+			lo, hi := pr[0], pr[1]
 			if lo != nil && hi != nil {
 				if c, _ := cmpVal(lo, hi); c > 0 {
 					continue
@@ -472,6 +510,16 @@ func c17Configs(thorough bool) []c17Params {
 	depth := 3
 	if thorough {
 		depth = 4
+	}
+	for _, kind := range []string{"skip", "uniq", "btree"} {
+		for _, kt := range []string{"int", "float"} {
+			// several nodes of fixed-size keys; the 700-key seed makes each replay expensive: depth 2 (thorough 3)
+			lv := "all1"
+			if kind != "btree" {
+				lv = "cycle123"
+			}
+			out = append(out, c17Params{Kind: kind, KeyT: kt, Seed: "multi", Levels: lv, Depth: depth - 1})
+		}
 	}
 	for _, kind := range []string{"skip", "uniq", "btree", "hash"} {
 		for _, kt := range []string{"int", "float", "str"} {
